@@ -31,6 +31,35 @@ ANY = ('any',)          # totality only
 TYPES = ['%', '&', '!', '#']
 TNAME = {'%': 'INTEGER', '&': 'LONG', '!': 'SINGLE', '#': 'DOUBLE', '$': 'STRING'}
 ARMINGS = ['none', 'goto', 'next']
+# further handler shapes (all armed with ON ERROR GOTO h):
+#   goto0  the handler gives up: ON ERROR GOTO 0 inside the handler re-raises the error
+#   fail   the handler itself fails (a second error inside a handler is fatal)
+#   end    the handler ends the program without RESUME
+HANDLER_MODES = ['goto0', 'fail', 'end']
+ALL_ARMINGS = ARMINGS + HANDLER_MODES
+
+
+def arm_head(arming):
+    """statement(s) that arm the handler, first lines of the program"""
+    if arming == 'none':
+        return []
+    if arming == 'next':
+        return ['ON ERROR RESUME NEXT']
+    return ['ON ERROR GOTO h']
+
+
+def handler_tail(arming):
+    """the handler, placed after the END of the module-level code"""
+    if arming == 'goto':
+        return ['h:', 'PRINT "H"', 'RESUME NEXT']
+    if arming == 'goto0':
+        return ['h:', 'PRINT "H"', 'ON ERROR GOTO 0', 'PRINT "not reached"', 'END']
+    if arming == 'fail':
+        # an error that needs no variable: the handler may run in a procedure's frame
+        return ['h:', 'PRINT "H"', 'PRINT ASC("")', 'PRINT "not reached"', 'RESUME NEXT']
+    if arming == 'end':
+        return ['h:', 'PRINT "H"', 'END']
+    return []
 
 
 def _case(cid, cause, construct, expect, setup=(), expr=None, rtype='n',
@@ -660,15 +689,10 @@ def using_driver(vname):
 def using_source(vname, arming):
     """the format string arrives through INKEY$ (any text, no parsing)"""
     setup, stmt = using_driver(vname)
-    lines = []
-    if arming == 'goto':
-        lines.append('ON ERROR GOTO h')
-    elif arming == 'next':
-        lines.append('ON ERROR RESUME NEXT')
+    lines = arm_head(arming)
     lines += setup
     lines += ['f$ = INKEY$', stmt, 'PRINT "after"', 'END']
-    if arming == 'goto':
-        lines += ['h:', 'PRINT "H"', 'RESUME NEXT']
+    lines += handler_tail(arming)
     return '\n'.join(lines) + '\n'
 
 
@@ -799,11 +823,7 @@ def build_source(case, arming, ctx='assign', site='main'):
     """-> source text of one catalogue program"""
     pre, stmt, tail = ([], case['stmt'], []) if case['stmt'] is not None else context_stmt(case, ctx)
     body = pre + case['setup'] + stmt
-    lines = []
-    if arming == 'goto':
-        lines.append('ON ERROR GOTO h')
-    elif arming == 'next':
-        lines.append('ON ERROR RESUME NEXT')
+    lines = arm_head(arming)
     lines += case['types']
     lines += case['data']
     after = []
@@ -828,8 +848,7 @@ def build_source(case, arming, ctx='assign', site='main'):
     lines += ['PRINT "after"', 'END']
     if site == 'gosub':
         lines += ['g1:'] + body + ['PRINT "in"', 'RETURN']
-    if arming == 'goto':
-        lines += ['h:', 'PRINT "H"', 'RESUME NEXT']
+    lines += handler_tail(arming)
     lines += after + case['tail'] + tail
     return '\n'.join(lines) + '\n'
 
@@ -931,11 +950,7 @@ def device_programs():
 
 
 def device_source(prog, arming):
-    lines = []
-    if arming == 'goto':
-        lines.append('ON ERROR GOTO h')
-    elif arming == 'next':
-        lines.append('ON ERROR RESUME NEXT')
+    lines = arm_head(arming)
     body = list(prog['lines'])
     # programs with procedures already contain END
     if 'END' in body:
@@ -944,8 +959,7 @@ def device_source(prog, arming):
     else:
         main, rest = body, []
     lines += main + ['PRINT "after"', 'END']
-    if arming == 'goto':
-        lines += ['h:', 'PRINT "H"', 'RESUME NEXT']
+    lines += handler_tail(arming)
     lines += rest
     return '\n'.join(lines) + '\n'
 
